@@ -965,6 +965,58 @@ fn rw_cancel_vs_next_writer() {
     });
 }
 
+/// C07, add_permits: a Semaphore with no permit and two polled acquire futures; add_permits(2) on one thread while the
+/// first waiter is polled (spuriously, or because it was woken) on another. Once add_permits has returned and every
+/// woken task has been polled again, both hold a permit.
+fn sem_add_permits_race() {
+    // one waiter, one permit: nobody else can pass a notification on
+    let mut b = loom::model::Builder::new();
+    b.preemption_bound = bound();
+    b.check(|| {
+        EXECUTIONS.fetch_add(1, std::sync::atomic::Ordering::Relaxed);
+        let s = std::sync::Arc::new(Semaphore::new(0));
+        let mut t1 = Task::new(s.acquire_arc());
+        t1.poll();
+        assert!(t1.pending());
+        let s2 = s.clone();
+        let t = loom::thread::spawn(move || s2.add_permits(1));
+        if t1.woken() {
+            t1.poll(); // the task is polled as soon as its waker was called
+        }
+        t.join().unwrap();
+        t1.settle();
+        if t1.pending() {
+            panic!("LOOM-VIOLATION sem_add_permits_race: lost wake-up: add_permits(1) has returned, every woken task has been polled again, the acquire future is pending (permit available: {})", s.try_acquire().is_some());
+        }
+        drop(t1);
+    });
+    // two waiters, two permits, a spurious poll
+    let mut b = loom::model::Builder::new();
+    b.preemption_bound = bound();
+    b.check(|| {
+        EXECUTIONS.fetch_add(1, std::sync::atomic::Ordering::Relaxed);
+        let s = std::sync::Arc::new(Semaphore::new(0));
+        let mut t1 = Task::new(s.acquire_arc());
+        let mut t2 = Task::new(s.acquire_arc());
+        t1.poll();
+        t2.poll();
+        assert!(t1.pending() && t2.pending());
+        let s2 = s.clone();
+        let t = loom::thread::spawn(move || s2.add_permits(2));
+        t1.poll();
+        t.join().unwrap();
+        for _ in 0..6 {
+            t1.settle();
+            t2.settle();
+        }
+        if t1.pending() || t2.pending() {
+            panic!("LOOM-VIOLATION sem_add_permits_race: lost wake-up: add_permits(2) has returned, every woken task has been polled again, acquire futures pending: {} {} (permit available: {})", t1.pending(), t2.pending(), s.try_acquire().is_some());
+        }
+        drop(t1);
+        drop(t2);
+    });
+}
+
 fn main() {
     let which = std::env::args().nth(1).unwrap_or_else(|| "all".to_string());
     let tests: Vec<(&str, fn())> = vec![
@@ -983,6 +1035,7 @@ fn main() {
         ("rw_writer_announced", rw_writer_announced),
         ("mutex_starved_try", mutex_starved_try),
         ("blocking_forms", blocking_forms),
+        ("sem_add_permits_race", sem_add_permits_race),
         ("rw_cancel_vs_next_writer", rw_cancel_vs_next_writer),
         ("once_wait_vs_cancel", once_wait_vs_cancel),
         ("rw_cancel_vs_last_reader", rw_cancel_vs_last_reader),
